@@ -226,7 +226,7 @@ func genHostileInput(r *zsim.Rng, cols, rows int) sysEvent {
 			}
 		}
 	case 5:
-		b = encodeKeys(pick(r, "up", "down", "left", "right", "home", "end", "pgup", "pgdn", "del", "tab", "btab", "bspace", "f5", "f10", "alt-bspace", "insert"))
+		b = encodeKeys(pick(r, "up", "down", "left", "right", "home", "end", "pgup", "pgdn", "del", "tab", "btab", "bspace", "f5", "f10", "alt-bspace", "insert", "shift-left", "shift-left", "shift-right"))
 	default:
 		b = encodeKeys(pick(r, "a", "b", "日", "space", "!", "'", "ctrl-a", "ctrl-e", "ctrl-k", "ctrl-u", "ctrl-w", "ctrl-y", "ctrl-l", "ctrl-r", "ctrl-s", "ctrl-t", "ctrl-z"))
 	}
@@ -287,7 +287,7 @@ func genC14Plan(r *zsim.Rng) *sysPlan {
 	p.HoldOpen = r.Chance(1, 8)
 	// child behaviours: everything that runs in the foreground is finite
 	for i := r.Range(2, 6); i > 0; i-- {
-		ps := procSpec{Text: pick(r, "", "out\n", "line1\nline2\nline3\n", "query text\n", strings.Repeat("x", 300)+"\n", "日本語\tx\n", "\x1b[2Jcleared\n", "partial")}
+		ps := procSpec{Text: pick(r, "", "out\n", "line1\nline2\nline3\n", "query text\n", strings.Repeat("x", 300)+"\n", "日本語\tx\n", "\x1b[2Jcleared\n", "partial", "a\tbbbbbbbbbbbbbbbbbbbbbbbbbbbb cc\n")}
 		ps.DelaysMs = []int{[]int{0, 0, 10, 120, 600, 1500}[r.Intn(6)]}
 		ps.Exit = []int{0, 0, 0, 1, 127}[r.Intn(5)]
 		ps.StartErr = r.Chance(1, 12)
